@@ -205,6 +205,7 @@ def make_sampler(desc: dict, ctor_seed: int):
     _SID[0] += 1
     s._vsid = _SID[0] % 256
     s._vk = 0
+    s._vctor = ctor_seed
     return s
 
 
@@ -419,7 +420,8 @@ def _sample_wrapper(self, search_space, existing_points, existing_losses):
         if not isinstance(self, _Scripted):
             rec.log({"e": "fault", "at": "sampler", "native": True})   # a built-in sampler raised by itself: a fault like any other
         raise
-    root = "cal" if self.random_state == _expected_seed(rec, pos) else "ctor"
+    # "ctor": the sampler still runs on the seed it was constructed with; how the cascade derives the new seed is not observed
+    root = "ctor" if getattr(self, "_vctor", None) is not None and self.random_state == self._vctor else "cal"
     gk = _gen_k(self, out, len(out), k)
     rec.log({"e": "sample", "s": pos, "cls": type(self).__name__, "root": root, "k": k, "gk": k if gk == -2 else gk,
              "pids": [rec.pid(r) for r in out], **pre})
